@@ -59,6 +59,9 @@ class SnarkjsProve(_Backend):
     # C18: "the proving step runs ... over the complete trace": for the default backend that step is this function
     vprops = ("C10", "C18")
     fprops = ("C10", "C18")
+    # "the recorded witness" of C01 and C04 is, in the end, the witness file of the default backend: what a reported
+    # value is congruent to must be what the prover is given
+    interface_for = ("C01", "C04")
 
     def configs(self, tier):
         shapes = [
